@@ -275,8 +275,11 @@ def make_tree(rng: random.Random) -> Dict[str, Any]:
         files["pkg/compat.py"] = "import six\nfrom six import SixK\n"
         files["pkg/__init__.py"] = "from pkg.compat import six, SixK\nfrom . import compat\n__all__ = ['six', 'SixK', 'compat']\n"
         extra_roots.append("six.py")
+    # now and then only some objects are written (--html-subject): their pages, their members' pages and the
+    # inventory are still due
+    subject = (root + "/good.py") in files and rng.random() < 0.25
     return {"files": files, "kind": kind, "docformat": rng.choice(DOCFORMATS), "constructs": nconstructs,
-            "werror": rng.random() < 0.3, "prepend": prepend, "root": root, "extra_roots": extra_roots}
+            "werror": rng.random() < 0.3, "prepend": prepend, "root": root, "extra_roots": extra_roots, "subject": subject}
 
 
 class _Timeout(Exception):
@@ -316,6 +319,11 @@ def run_tree(tree: Dict[str, Any]) -> Dict[str, Any]:
         args = ["--html-output", str(out), "--docformat", tree["docformat"], "--project-name", "p", "--quiet",
                 "--make-html", "--make-intersphinx", str(Path(tmp, "src", tree.get("root", "pkg")))]
         args += [str(Path(tmp, "src", x)) for x in tree.get("extra_roots") or []]
+        pre0 = "fake.pack." if tree.get("prepend") else ""
+        rt0 = tree.get("root", "pkg")
+        subject_on = bool(tree.get("subject")) and (rt0 + "/good.py") not in bad and (rt0 + "/__init__.py") not in bad
+        if subject_on:
+            args[0:0] = ["--html-subject", pre0 + rt0 + ".good"]
         if tree.get("werror"):
             args.insert(0, "-W")
         if tree.get("prepend"):
@@ -348,6 +356,17 @@ def run_tree(tree: Dict[str, Any]) -> Dict[str, Any]:
         pre = "fake.pack." if tree.get("prepend") else ""
         res["written"] = {n: (out / n).exists() for n in ("index.html", "objects.inv", "all-documents.html", "searchindex.json", "pkg.html")}
         rt = tree.get("root", "pkg")
+        if subject_on:
+            # only the subject is written: its page, the pages of its members, and an inventory that lists them
+            res["written"] = {"objects.inv": (out / "objects.inv").exists()}
+            res["subject"] = {n: (out / n).exists() for n in (pre + rt + ".good.html", pre + rt + ".good.Fine.html")}
+            try:
+                import zlib
+                raw = (out / "objects.inv").read_bytes()
+                body = zlib.decompress(raw.split(b"\n", 4)[4]).decode("utf-8", "replace")
+                res["subject_inv"] = all((pre + rt + ".good" + x + " ") in body for x in ("", ".Fine", ".Fine.m"))   # `ok` may have been moved by a re-export
+            except Exception as e:
+                res["subject_inv"] = "unreadable:" + type(e).__name__
         res["good_page"] = (out / (pre + rt + ".good.html")).exists() if rt + "/good.py" in tree["files"] and rt + "/good.py" not in bad else None
         res["pkg_ok"] = rt + "/__init__.py" not in bad
         res["tail"] = text[-400:]
@@ -442,7 +461,7 @@ def where(e: BaseException) -> str:
 def judge(ctx: Ctx, tree: Dict[str, Any], r: Dict[str, Any]) -> None:
     o = r["outcome"]
     inp = {"files": tree["files"], "docformat": tree["docformat"], "werror": tree.get("werror"), "prepend": tree.get("prepend"),
-           "root": tree.get("root", "pkg"), "extra_roots": tree.get("extra_roots")}
+           "root": tree.get("root", "pkg"), "extra_roots": tree.get("extra_roots"), "subject": tree.get("subject")}
     if o is None or o.startswith("harness"):
         ctx.count("harness-trouble")
         ctx.notes.append("harness: " + str(o)[:200]) if len(ctx.notes) < 3 else None
@@ -462,6 +481,13 @@ def judge(ctx: Ctx, tree: Dict[str, Any], r: Dict[str, Any]) -> None:
     for rel, ok in r["mentions"].items():
         if not ok:
             ctx.fail("unparsable-file-not-named", inp, f"{rel} does not parse but no message names it")
+    for n, ok in (r.get("subject") or {}).items():
+        if not ok:
+            ctx.fail("subject-page-not-written", inp, f"--html-subject {inp['root']}.good: {n} missing after a run that returned {code}")
+    if r.get("subject_inv") not in (None, True):
+        ctx.fail("subject-missing-from-inventory", inp, f"--html-subject {inp['root']}.good: objects.inv does not list the subject and its members ({r.get('subject_inv')})")
+    if "subject" in r:
+        ctx.count("runs:--html-subject")
     if r.get("good_page") is False and r.get("pkg_ok"):
         ctx.fail("good-file-not-documented", inp, "pkg/good.py parses but pkg.good.html was not written")
 
@@ -614,7 +640,11 @@ def replay(ctx: Ctx, obj) -> int:
         print(obj)
         return 0
     r = run_tree({"files": inp["files"], "docformat": inp.get("docformat", "epytext"), "werror": inp.get("werror"),
-                  "prepend": inp.get("prepend"), "root": inp.get("root", "pkg"), "extra_roots": inp.get("extra_roots"), "kind": "replay", "constructs": 0})
+                  "prepend": inp.get("prepend"), "root": inp.get("root", "pkg"), "extra_roots": inp.get("extra_roots"), "subject": inp.get("subject"), "kind": "replay", "constructs": 0})
     print("outcome:", r["outcome"], r.get("detail", ""))
     print(r.get("tail", "")[-600:])
+    if r.get("subject") is not None:
+        print("--html-subject pages:", r.get("subject"), "inventory lists them:", r.get("subject_inv"))
+        if not all(r["subject"].values()) or r.get("subject_inv") is not True:
+            return 1
     return 0 if str(r["outcome"]).startswith("exit") else 1
